@@ -2,6 +2,8 @@
 
 from . import common, nested, predicates, runrules, shutrules, buildrules
 
+from . import causes
+
 
 def check(ctx, rep):
     rep.explanation = (
@@ -13,7 +15,7 @@ def check(ctx, rep):
         "activation of the run. R10.3 failure mapping and identity (critical mapping over path facts; the "
         "wrapper never replaces an exception; is_done/result tables for the nestable class). R10.4 the parent "
         "aborts on the failure of a critical member - nested scheduler or plain job alike - exactly when a done "
-        "task raised and its job is critical (fold-classified abort flag). R10.8 the nestable class forwards every configuration parameter unchanged to its two parents. R10.9 (= R01.7) the nestable class hands on every constructor parameter. R10.10 (= R20.6). R10.11 (= R14.4). R10.12 (= R04.6) run() is transparent: what the tree raises (the exception of a critical job bubbling up through critical schedulers, TimeoutError included) leaves run() as it is, as it does for the flattened graph. R10.13 (= R07.1) a nested scheduler takes a slot of its parent's window like any job: every body is awaited while holding a slot. R10.14 (= R09.8) the window of a run closes when its last member that does not run forever has completed, and only then: the jobs of a nested scheduler start and stop as they would in the flattened graph.")
+        "task raised and its job is critical (fold-classified abort flag). R10.8 the nestable class forwards every configuration parameter unchanged to its two parents. R10.9 (= R01.7) the nestable class hands on every constructor parameter. R10.10 (= R20.6). R10.11 (= R14.4). R10.12 (= R04.6) run() is transparent: what the tree raises (the exception of a critical job bubbling up through critical schedulers, TimeoutError included) leaves run() as it is, as it does for the flattened graph. R10.13 (= R07.1) a nested scheduler takes a slot of its parent's window like any job: every body is awaited while holding a slot. R10.14 (= R09.8) the window of a run closes when its last member that does not run forever has completed, and only then: the jobs of a nested scheduler start and stop as they would in the flattened graph. R10.15 (= R04.1) the verdict of a run - which is what a parent reads of a nested scheduler - is determined by the cause of each exit (how long the shutdown handlers took is not one). R10.16 in the nested form the exception read from a critical member is raised at once: no call in between that could raise something else in its place.")
     rep.declined = ["'every job runs at the same times as in the flattened graph' (timing)"]
     rep.trusted = ["T8 C3 MRO"]
     nested.mro_table(ctx, rep, "R10.1")
@@ -36,3 +38,5 @@ def check(ctx, rep):
     common.sync_wrapper(ctx, rep, "R10.12", "run")
     common.wrap_typestate(ctx, rep, "R10.13")
     common.window_gate(ctx, rep, "R10.14", "endofrun")
+    causes.exit_verdict_flags(ctx, rep, "R10.15")
+    nested.reraise_is_immediate(ctx, rep, "R10.16")
